@@ -6,7 +6,7 @@ PROPS = {}
 NOT_APPLICABLE = {}   # property id -> reason, for properties that are deliberately not claimed
 HOOK_COMMITS = ['475b2b1', 'ccff399']     # commits in /repo that add guarded hooks
 # checks that have been calibrated on the unchanged tree (several seeds, both tiers) and are claimed in MANIFEST.json
-REGISTERED = ['C01', 'C02', 'C03', 'C05', 'C06', 'C07', 'C08', 'C09', 'C10', 'C11', 'C12', 'C13', 'C14', 'C15', 'C16', 'C17', 'C18', 'C19', 'C20']
+REGISTERED = ['C%02d' % i for i in range(1, 21)]
 
 PROPS['C18'] = dict(
     level='exploration',
